@@ -26,11 +26,14 @@ func init() {
 			"registry.Referrers, the referrers-index update on push and the FilterArtifactType fetch path; (R4) FilterAnnotation fetches missing annotations for each of the " +
 			"five manifest kinds; (R6) in the FindPredecessors wrappers installed by FilterAnnotation / FilterArtifactType the per-page Referrers callback only ever appends to " +
 			"the captured accumulator, every referrer of a page and every listed predecessor reaches the keep test and is appended on its true edge, and the wrapper returns that " +
-			"accumulator / the kept slice; (R5) ExtendedCopy tags the resolved node with the destination reference on every successful return (same obligation as C01.R4(e)). " +
+			"accumulator / the kept slice; (R5) ExtendedCopy tags the resolved node with the destination reference on every successful return (same obligation as C01.R4(e)); " +
+			"(R8) every function installed as FindPredecessors looks up (Predecessors / Referrers / the previous finder) the node and storage it was called with, lists " +
+			"referrers with the empty artifact type, FilterArtifactType's keep answers regex.MatchString(descriptor.ArtifactType) and FilterAnnotation's keep, with a regex set, " +
+			"answers true only after regex.MatchString(annotations[key]). " +
 			"The wait-before-push ordering inside each root's copy is C02.R1 and is not repeated here. NOT decided (not applicable to static analysis): the " +
 			"reachability/closure statement itself, regular-expression semantics, the listing behaviour of remote sources, byte identity of copied content.",
 		Run:     runC03,
-		Mutants: c03Mutants,
+		Mutants: append(c03Mutants, c03CovMutants...),
 	})
 }
 
@@ -44,6 +47,7 @@ func runC03(c *Ctx) {
 	c01TagsGivenNode(c, "C03.R5.tags-given-node")
 	c03R6(c)
 	c03R7(c)
+	runC03Coverage(c)
 }
 
 // ---------- R1: findRoots shape ----------
